@@ -34,8 +34,12 @@
 (***************************************************************************)
 EXTENDS Integers, Sequences, FiniteSets, FiniteSetsExt
 
-CONSTANT Patterns
+CONSTANTS Patterns,
   \* <<p_1 .. p_n>>, p = [re, sym, emit, lit, text]; re = [k, neg, ws, rs, subs, min, max]
+          AsciiCand
+  \* must equal CandTuple(0) (defined below from Patterns alone).  It is a parameter only so
+  \* that the root module can bind it to a definition TLC evaluates once: constant definitions
+  \* inside an instantiated module are re-evaluated by TLC at every use.
 
 NPat == Len(Patterns)
 
@@ -141,11 +145,9 @@ CanStart(re, c) ==
 
 AllPats == [p \in 1..NPat |-> p]
 CandFor(c) == SelectSeq(AllPats, LAMBDA p : CanStart(Patterns[p].re, c))
-\* built as an explicit tuple (TLC evaluates [c \in S |-> e] lazily, at every application);
-\* a constant definition, evaluated once
+\* the candidates for every ASCII character, as an explicit tuple (index c + 1)
 RECURSIVE CandTuple(_)
 CandTuple(c) == IF c > 127 THEN <<>> ELSE <<CandFor(c)>> \o CandTuple(c + 1)
-AsciiCand == CandTuple(0)
 Cand(c) == IF c <= 127 THEN AsciiCand[c + 1] ELSE CandFor(c)
 
 RECURSIVE BestFrom(_, _, _, _, _, _)
